@@ -85,9 +85,8 @@ theorem bestState_rt (st : BestState) (hw : st.WF) :
   rw [e1, e2, e3, e4, e5']
   have v4 : leVal (leBytes 4 ws.length) = ws.length := by
     rw [leVal_leBytes]; exact Nat.mod_eq_of_lt (by omega)
-  rw [v4, hwl, if_neg (by omega)]
-  have hm : (48 + ws.length) % 2 ^ 32 = 48 + ws.length := Nat.mod_eq_of_lt (by omega)
-  rw [hm, slice_some (by omega) (by omega), e5']
+  rw [v4, if_neg (by omega), slice_some (by omega) (by omega), List.drop_zero, Nat.sub_zero,
+    List.take_of_length_le (Nat.le_refl _)]
   simp only []
   rw [leVal_leBytes, leVal_leBytes, ← hws, beVal_beBytes, Nat.mod_eq_of_lt (by omega : st.height < 256 ^ 4),
     Nat.mod_eq_of_lt (by omega : st.totalTxns < 256 ^ 8)]
